@@ -30,8 +30,20 @@ Track == TLCSet(1, Max2(TLCGet(1), l))
 R == Rec[l]
 Is(k) == l <= N /\ R.k = k
 
-Aux0(t) == [drift |-> 0, lastMaint |-> t, ahead |-> FALSE, unknown |-> {}, phantom |-> FALSE]
-Cfg0 == [keys |-> 1, cap |-> 0, ttl |-> 0, tti |-> 0, grace |-> 0, tick |-> 0, kf |-> {}]
+\* TLC splits a disjunction that it meets while computing successor states into separate
+\* successors; state predicates are therefore wrapped so that they are evaluated as values.
+B(x) == (x = TRUE)
+
+\* bookkeeping for the guards of the deviation actions (it never influences a strict verdict)
+\*   drift    reported cost minus resident cost accumulated so far (F17)
+\*   lastMaint, ahead   F15: two maintenance passes (or the creation of the cache and a pass)
+\*            less than a wheel tick apart put the TTL timer wheel ahead of the clock
+\*   stale    keys that may own a TTL timer that was not cancelled (FC2)
+\*   unknown  keys whose resident entry was never announced to the eviction policy (F21)
+\*   wsm, lossy  writes since the last maintenance pass; more than the 512 slots of a shard's
+\*            event buffer means write events were dropped (F16)
+Aux0(t) == [drift |-> 0, lastMaint |-> t, ahead |-> FALSE, stale |-> {}, unknown |-> {}, wsm |-> 0, lossy |-> FALSE]
+Cfg0 == [hid |-> 0, shards |-> 1, keys |-> 1, cap |-> 0, ttl |-> 0, tti |-> 0, grace |-> 0, tick |-> 0, policy |-> "", kf |-> {}]
 
 Init ==
   /\ TLCSet(1, 0)
@@ -44,8 +56,8 @@ Init ==
 
 New ==
   /\ Is("new")
-  /\ cfg' = [keys |-> R.keys, cap |-> R.cap, ttl |-> R.ttl, tti |-> R.tti, grace |-> R.grace,
-             tick |-> IF R.ttl > 0 \/ R.tti > 0 THEN R.tick ELSE 0, kf |-> SeqToSet(R.kf)]
+  /\ cfg' = [hid |-> R.hid, shards |-> R.shards, keys |-> R.keys, cap |-> R.cap, ttl |-> R.ttl, tti |-> R.tti, grace |-> R.grace,
+             tick |-> IF R.ttl > 0 \/ R.tti > 0 THEN R.tick ELSE 0, policy |-> R.policy, kf |-> SeqToSet(R.kf)]
   /\ live' = [k \in 1..R.keys |-> NoE]
   /\ now' = R.t
   /\ aux' = Aux0(R.t)
@@ -58,89 +70,132 @@ InvIdx(r) == {i \in 1..Len(r.notes) : r.notes[i][4] = "Invalidated"}
 SpIdx(r) == (1..Len(r.notes)) \ InvIdx(r)
 NoteKeys(S) == {x[1] : x \in S}
 OneEach(S) == Cardinality(NoteKeys(S)) = Cardinality(S)
-DevsOf(L, S, t) == UNION {NoteDevs(L, x, t) : x \in S}
+DevsOf(L, S, t, a) == UNION {NoteDevs(L, x, t, a) : x \in S}
+
+(* ---- deviation bookkeeping ----------------------------------------------------- *)
+Same(a) == a
+ZeroDrift(a) == [a EXCEPT !.drift = 0]
+Maintained(a) == [a EXCEPT !.ahead = @ \/ (cfg.tick > 0 /\ R.t - a.lastMaint < cfg.tick), !.lastMaint = R.t, !.wsm = 0]
+Fresh(a) == Aux0(R.t)
+
+Writes(r) == CASE r.k \in {"ins", "ent"} -> 1
+               [] r.k = "mins" -> Len(r.items)
+               [] r.k = "fw" -> Len(r.loads)
+               [] OTHER -> 0
+\* keys whose TTL timer may have been left armed by this record: the entry had a deadline
+\* and was taken out by a Capacity eviction, by clear(), or replaced by a loader
+Timed(L, k) == Present(L, k) /\ L[k].exp > 0
+StaleAdd(r, L0, pre, L1, Lo, post) ==
+  {x[1] : x \in {y \in pre : y[4] = "Capacity" /\ Timed(L0, y[1])}}
+  \cup {x[1] : x \in {y \in post : y[4] = "Capacity" /\ Timed(Lo, y[1])}}
+  \cup (IF r.k = "clear" THEN {k \in DOMAIN L1 : Timed(L1, k)} ELSE {})
+  \cup (IF r.k = "fw" THEN (IF r.loads # <<>> /\ Timed(L1, r.key) THEN {r.key} ELSE {}) ELSE {})
+\* a1: aux after the kind-specific update; L0: residency before the record; L2: after it
+Book(a1, r, L0, pre, L1, Lo, post, L2) ==
+  LET w == a1.wsm + Writes(r) IN
+  [a1 EXCEPT
+     !.stale = IF r.k = "restore" THEN {} ELSE @ \cup StaleAdd(r, L0, pre, L1, Lo, post),
+     !.unknown = IF r.k = "restore" THEN KeysOf(r.after)
+                 ELSE {k \in @ : Present(L2, k) /\ L2[k].wid = L0[k].wid},
+     !.wsm = w,
+     !.lossy = @ \/ w > 512]
 
 (* ---- reported cost (C13 CostMatchesResidency) ---------------------------------- *)
-\* Known finding F17: the capacity pass subtracts the policy's recorded cost of every
-\* nominated victim, resident or not (a key removed / cleared / overwritten before the
-\* policy learnt about it is still nominated later), so the reported cost drifts away from
-\* the resident cost -- below it, even below zero.  The drift persists until clear().
-\* Only a pass that can evict for capacity can create it.
-CanEvict(r) == r.k \in {"maint", "ins", "mins", "it", "snap", "restore", "quiet", "end", "rd", "adv", "fw", "ent", "comp", "rem", "mrem", "mget", "clear"}
-CostStrict(L, r) == r.cr = Resident(L) + aux.drift
-CostDev(L, r) == Dev("F17") /\ Bounded /\ CanEvict(r) /\ r.cr < Resident(L) + aux.drift
+\* Known finding F17: the capacity pass of run_maintenance subtracts the eviction policy's
+\* recorded cost of every nominated victim, resident or not (a key removed / cleared /
+\* overwritten before the policy learnt about it is still nominated later, and several
+\* policies keep the cost of the first admission), so the reported cost drifts away from
+\* the resident cost, in either direction, even below zero.  The drift persists until
+\* clear() resets the counter.  Only that capacity pass can create it.
+CostDev(L, r, a) == Dev("F17") /\ Bounded /\ r.k = "maint" /\ r.cr # Resident(L) + a.drift
 
 (* ---- one completed call --------------------------------------------------------- *)
 \* Op(L, r, t) is the Layer A outcome set of the call.  Forgets announced in `notes` are
-\* split into those before the call (pre) and those after it (post).
-Apply(r, Op(_, _, _), resetDrift) ==
+\* split into those before the call (pre) and those after it (post); for records without an
+\* effect of their own the split is immaterial.
+Apply(r, Op(_, _, _), AuxUpd(_), Post(_, _)) ==
   /\ r.t >= now
-  /\ NoDup(r.notes)
-  /\ \E P \in SUBSET SpIdx(r) :
+  /\ B(NoDup(r.notes))
+  /\ \E P \in (IF r.k \in {"maint", "quiet", "adv", "end"} THEN {SpIdx(r)} ELSE SUBSET SpIdx(r)) :
        LET pre == {r.notes[i] : i \in P}
            post == {r.notes[i] : i \in SpIdx(r) \ P}
            invs == {r.notes[i] : i \in InvIdx(r)}
+           a1 == AuxUpd(aux)
        IN
-       /\ OneEach(pre) /\ OneEach(post)
-       /\ \A x \in pre : NoteOK(live, x, r.t)
+       /\ B(OneEach(pre) /\ OneEach(post))
+       /\ B(\A x \in pre : NoteOK(live, x, r.t, a1))
        /\ LET L1 == ForgetAll(live, NoteKeys(pre)) IN
           \E o \in Op(L1, r, r.t) :
-            /\ o.inv \subseteq invs /\ invs \subseteq (o.inv \cup o.invopt)
-            /\ \A x \in post : NoteOK(o.L, x, r.t)
+            /\ B(o.inv \subseteq invs /\ invs \subseteq (o.inv \cup o.invopt))
+            /\ B(\A x \in post : NoteOK(o.L, x, r.t, a1))
             /\ LET L2 == ForgetAll(o.L, NoteKeys(post))
-                   a1 == IF resetDrift THEN [aux EXCEPT !.drift = 0] ELSE aux
+                   a2 == Book(a1, r, live, pre, L1, o.L, post, L2)
+                   dv == devs \cup o.devs \cup DevsOf(live, pre, r.t, a1) \cup DevsOf(o.L, post, r.t, a1) \cup Post(L2, a2).devs
                IN
-               /\ ("view" \in DOMAIN r) => ViewOK(L2, r.view, r.t)
-               /\ \/ /\ r.cr = Resident(L2) + a1.drift
-                     /\ aux' = a1
-                     /\ devs' = devs \cup o.devs \cup DevsOf(live, pre, r.t) \cup DevsOf(o.L, post, r.t)
-                  \/ /\ ~resetDrift /\ CostDev(L2, r)
-                     /\ aux' = [a1 EXCEPT !.drift = r.cr - Resident(L2)]
-                     /\ devs' = devs \cup o.devs \cup DevsOf(live, pre, r.t) \cup DevsOf(o.L, post, r.t) \cup {"F17"}
+               /\ B(Post(L2, a2).ok)
+               /\ B(("view" \in DOMAIN r) => ViewOK(L2, r.view, r.t))
+               /\ \/ /\ r.cr = Resident(L2) + a2.drift
+                     /\ aux' = a2
+                     /\ devs' = dv
+                  \/ /\ B(CostDev(L2, r, a2))
+                     /\ aux' = [a2 EXCEPT !.drift = r.cr - Resident(L2)]
+                     /\ devs' = dv \cup {"F17"}
                /\ live' = L2
   /\ now' = r.t
   /\ l' = l + 1
   /\ UNCHANGED cfg
 
 Nop(L, r, t) == {Out(L)}
+NoPost(L, a) == [ok |-> TRUE, devs |-> {}]
 
-Ins == Is("ins") /\ Apply(R, Insert, FALSE)
-MIns == Is("mins") /\ Apply(R, MultiInsert, FALSE)
-Rem == Is("rem") /\ Apply(R, Remove, FALSE)
-MRem == Is("mrem") /\ Apply(R, MultiRemove, FALSE)
-\* clear() also resets the reported cost, which ends any accumulated drift
-Clr == Is("clear") /\ Apply(R, Clear, TRUE)
-Comp == Is("comp") /\ Apply(R, Compute, FALSE)
-Ent == Is("ent") /\ Apply(R, EntryOp, FALSE)
-Rd == Is("rd") /\ Apply(R, Read, FALSE)
-MGet == Is("mget") /\ Apply(R, MultiGet, FALSE)
-FW == Is("fw") /\ Apply(R, FetchWith, FALSE)
-It == Is("it") /\ Apply(R, Iterate, FALSE)
-Snap == Is("snap") /\ Apply(R, Snapshot, FALSE)
-Adv == Is("adv") /\ Apply(R, Nop, FALSE)
+Ins == Is("ins") /\ Apply(R, Insert, Same, NoPost)
+MIns == Is("mins") /\ Apply(R, MultiInsert, Same, NoPost)
+Rem == Is("rem") /\ Apply(R, Remove, Same, NoPost)
+MRem == Is("mrem") /\ Apply(R, MultiRemove, Same, NoPost)
+\* clear() and a restore also reset the reported cost, which ends any accumulated drift
+Clr == Is("clear") /\ Apply(R, Clear, ZeroDrift, NoPost)
+Comp == Is("comp") /\ Apply(R, Compute, Same, NoPost)
+Ent == Is("ent") /\ Apply(R, EntryOp, Same, NoPost)
+Rd == Is("rd") /\ Apply(R, Read, Same, NoPost)
+MGet == Is("mget") /\ Apply(R, MultiGet, Same, NoPost)
+FW == Is("fw") /\ Apply(R, FetchWith, Same, NoPost)
+It == Is("it") /\ Apply(R, Iterate, Same, NoPost)
+Snap == Is("snap") /\ Apply(R, Snapshot, Same, NoPost)
+Adv == Is("adv") /\ Apply(R, Nop, Same, NoPost)
+Restore1 == Is("restore") /\ Apply(R, Restore, Fresh, NoPost)
 
 \* run_maintenance: no effect of its own; whatever it removed is in the notifications.
-\* (bookkeeping for F15: two maintenance passes less than a wheel tick apart put the timer
-\* wheel ahead of the clock)
-Maint ==
-  /\ Is("maint")
-  /\ Apply(R, Nop, FALSE)
+Maint == Is("maint") /\ Apply(R, Nop, Maintained, NoPost)
 
-\* Quiescence after maintenance was repeated until nothing changed (C13 CapacityAtQuiescence).
+\* Quiescence after maintenance was repeated until nothing changed: C13 CapacityAtQuiescence.
+\* Known findings that leave the cache over capacity for good:
+\*   F17  the reported cost has drifted below the resident cost, and the reported cost is
+\*        within the capacity;
+\*   FC3  the ARC policy (root cause F19) silently stops tracking resident keys, they are never nominated;
+\*   F21  entries restored from a snapshot are never announced to the policy;
+\*   F16  write events beyond the 512 slots of a shard's event buffer are dropped, the
+\*        policy never learns those keys.
+\*   FC4  TinyLFU's evict only drains the main segment (root cause POL-F28): the keys in the
+\*        admission window of every shard (up to max(1, 1%) of the shard's capacity each) are
+\*        never nominated, so with several shards and a small capacity the windows alone
+\*        exceed the capacity.
+WindowCost == LET sc == (cfg.cap + cfg.shards - 1) \div cfg.shards IN IF sc < 150 THEN 1 ELSE (sc + 50) \div 100
+CapDevs(L, a) ==
+  (IF Dev("F17") /\ a.drift < 0 /\ Resident(L) + a.drift <= cfg.cap THEN {"F17"} ELSE {})
+  \cup (IF Dev("FC3") /\ cfg.policy = "arc" THEN {"FC3"} ELSE {})
+  \cup (IF Dev("F21") /\ \E k \in a.unknown : Present(L, k) THEN {"F21"} ELSE {})
+  \cup (IF Dev("F16") /\ a.lossy THEN {"F16"} ELSE {})
+  \cup (IF Dev("FC4") /\ cfg.policy \in {"tinylfu", "default"} /\ Resident(L) <= cfg.shards * WindowCost THEN {"FC4"} ELSE {})
+CapPost(L, a) == [ok |-> CapacityOK(L) \/ CapDevs(L, a) # {}, devs |-> IF CapacityOK(L) THEN {} ELSE CapDevs(L, a)]
 Quiet ==
   /\ Is("quiet")
   /\ R.stable
-  /\ Apply(R, Nop, FALSE)
-  /\ CapacityOK(live')
-
-Restore1 ==
-  /\ Is("restore")
-  /\ Apply(R, Restore, TRUE)
+  /\ Apply(R, Nop, Same, CapPost)
 
 End ==
   /\ Is("end")
-  /\ Apply(R, Nop, FALSE)
-  /\ \A d \in devs' : PrintT(<<"DEV", d>>)
+  /\ Apply(R, Nop, Same, NoPost)
+  /\ \A x \in devs' : PrintT(<<"DEV", x, cfg.hid>>)
 
 Next ==
   \/ New \/ Ins \/ MIns \/ Rem \/ MRem \/ Clr \/ Comp \/ Ent \/ Rd \/ MGet \/ FW \/ It \/ Snap \/ Adv
